@@ -1,9 +1,11 @@
 package mon
 
 import (
+	"bytes"
 	"crypto/sha256"
 	"encoding/hex"
 	"fmt"
+	"io"
 	"os"
 	"runtime"
 	"sync"
@@ -197,6 +199,18 @@ func indTasks(r *core.Rand) []indTask {
 		add("verify/encleaseset-ecdsa", func() string {
 			o := p.Fn(append([]byte(nil), enc...))
 			return dig(o.Accepted, o.Ser, obsDigest(o.Val))
+		})
+	}
+	// a stream that fails half way while being hashed, then plain data hashed: the second hash is
+	// that of its own input (state a failed call leaves behind belongs to nobody)
+	{
+		in := r.Bytes(40 + r.Pick(400))
+		cut := r.Pick(len(in))
+		add("hash-after-failed-stream", func() string {
+			_, ferr := data.HashReader(io.MultiReader(bytes.NewReader(in[:cut]), failingReader{}))
+			h := data.HashData(in)
+			h2, err := data.HashReader(bytes.NewReader(in))
+			return dig(ferr != nil, h[:], h2[:], err != nil)
 		})
 	}
 	// near-collisions of the task above: the same signed content with a damaged signature, and cut
